@@ -81,6 +81,8 @@ pub struct Interp {
     proxies: HashMap<String, Value>,
     /// overrides installed by monitors (C17): assert := identity etc.
     pub model_assert_identity: bool,
+    /// model of convert_square_root_call: math.sqrt(x) behaves as x ^ 0.5
+    pub sqrt_is_pow: bool,
 }
 
 const B_PRINT: u16 = 1;
@@ -166,6 +168,7 @@ impl Interp {
             chunk_args: vec![],
             proxies: HashMap::new(),
             model_assert_identity: false,
+            sqrt_is_pow: false,
         };
         it.globals = it.new_table();
         it.string_lib = it.new_table();
@@ -925,6 +928,10 @@ impl Interp {
                 if let (Value::Num(a), Value::Num(b)) = (&l, &r) {
                     return Ok(Value::Num(self.arith_raw(op, *a, *b)));
                 }
+                if op == BinOp::IDiv {
+                    // the documented lowering `math.floor(a / b)` is only meant for numbers (DESIGN.md A8)
+                    self.mark_uncertain("floor division on a non-number");
+                }
                 if matches!(l, Value::Proxy(_)) || matches!(r, Value::Proxy(_)) {
                     return self.proxy_op(op.text(), &[l, r]);
                 }
@@ -959,6 +966,11 @@ impl Interp {
                 if ok(&l) && ok(&r) {
                     let mut out = self.tostring_basic(&l);
                     out.extend_from_slice(&self.tostring_basic(&r));
+                    if out.len() > 1 << 20 {
+                        // runaway string growth counts as running out of fuel
+                        return Err(Ctl::Fuel);
+                    }
+                    self.burn((out.len() / 256) as i64)?;
                     return Ok(Value::bytes(&out));
                 }
                 if matches!(l, Value::Proxy(_)) || matches!(r, Value::Proxy(_)) {
@@ -1619,7 +1631,10 @@ impl Interp {
             }
             B_M_FLOOR => Ok(vec![Value::Num(self.arg_num(&args, 0, "floor")?.floor())]),
             B_M_CEIL => Ok(vec![Value::Num(self.arg_num(&args, 0, "ceil")?.ceil())]),
-            B_M_SQRT => Ok(vec![Value::Num(self.arg_num(&args, 0, "sqrt")?.sqrt())]),
+            B_M_SQRT => {
+                let x = self.arg_num(&args, 0, "sqrt")?;
+                Ok(vec![Value::Num(if self.sqrt_is_pow { pow(x, 0.5) } else { x.sqrt() })])
+            }
             B_M_ABS => Ok(vec![Value::Num(self.arg_num(&args, 0, "abs")?.abs())]),
             B_M_FMOD => {
                 let a = self.arg_num(&args, 0, "fmod")?;
@@ -1773,7 +1788,7 @@ impl Interp {
                     let a = args[ai].clone();
                     ai += 1;
                     match conv {
-                        b'*' if self.dialect == Dialect::Luau => {
+                        b'*' => {
                             let s = self.tostring(&a)?;
                             out.extend_from_slice(&s);
                         }
